@@ -216,6 +216,10 @@ func (s *OperationProcessor) applyResolutionOptions(uniqueSuffix string, publish
 	opts document.ResolutionOptions) ([]*operation.AnchoredOperation, []*operation.AnchoredOperation, []*operation.AnchoredOperation, error) {
 	canonicalIds := getCanonicalMap(published)
 
+	// the lists are extended and sorted below: work on copies so that the slices the stores handed out stay as they are
+	published = append([]*operation.AnchoredOperation{}, published...)
+	unpublished = append([]*operation.AnchoredOperation{}, unpublished...)
+
 	for _, op := range opts.AdditionalOperations {
 		if op.CanonicalReference == "" {
 			unpublished = append(unpublished, op)
